@@ -89,8 +89,8 @@ def run(ctx):
         return
     quick = ctx.tier == "quick"
     plan = {"api": 400, "forged": 200, "natfn": 300, "builtin": 200, "opcode": 350, "bytes": 500} if quick else \
-           {"api": 1200, "forged": 1500, "natfn": 1500, "builtin": 500, "opcode": 800, "bytes": 1200}
-    maxlen = 200 if quick else 400
+           {"api": 2500, "forged": 3000, "natfn": 3000, "builtin": 1000, "opcode": 1600, "bytes": 2500}
+    maxlen = 200 if quick else 500
     profiles = ["dev"] if quick else ["dev", "release"]
     total, nontrivial, steps = 0, set(), 0
     dist_all = {}
@@ -136,15 +136,17 @@ def run(ctx):
                 if harness:
                     ctx.broken.append("harness C09 (byteslimits): " + harness[0][:300])
         for surface, n in plan.items():
-            runs = [("corpus:" + name, ["--replay-ops", ops]) for name, ops in corpus_cases(surface)] + [(None, [])]
+            # thorough: a second, independent seed stream per profile
+            seeds = [ctx.seed] if (quick or replay) else [ctx.seed, ctx.seed + 7919]
+            runs = [("corpus:" + name, ["--replay-ops", ops], ctx.seed) for name, ops in corpus_cases(surface)] + [(None, [], sd) for sd in seeds]
             if replay:
-                runs = [("replay", ["--replay-ops", replay[1]])]
-            for tag, extra in runs:
+                runs = [("replay", ["--replay-ops", replay[1]], ctx.seed)]
+            for tag, extra, run_seed in runs:
                 rc, out, cases, oracle, dist, harness = run_harness(
-                    ctx, paths["hx_mheap"], surface, ctx.seed, n if tag is None else 1, maxlen, extra)
+                    ctx, paths["hx_mheap"], surface, run_seed, n if tag is None else 1, maxlen, extra)
                 if rc != 0:
                     # find the operation that brought the process down: same run again with a step trace
-                    rc2, out2 = vlib.sh([paths["hx_mheap"], "--seed", str(ctx.seed), "--hist", str(n if tag is None else 1), "--maxlen", str(maxlen),
+                    rc2, out2 = vlib.sh([paths["hx_mheap"], "--seed", str(run_seed), "--hist", str(n if tag is None else 1), "--maxlen", str(maxlen),
                                          "--surface", surface, "--trace"] + extra, timeout=1500)
                     steps_seen = [l.split("\t") for l in out2.splitlines() if l.startswith("#STEP\t")]
                     hist_ops = []
@@ -155,7 +157,7 @@ def run(ctx):
                     hist_ops.reverse()
                     ctx.violation("hx_mheap-crash:" + surface,
                                   "the process running the implementation died (abort / stack overflow / allocation failure) on the last operation of the recorded history",
-                                  {"surface": surface, "profile": prof, "seed": ctx.seed, "history": "; ".join(hist_ops)[-3000:],
+                                  {"surface": surface, "profile": prof, "seed": run_seed, "history": "; ".join(hist_ops)[-3000:],
                                    "last_operation": hist_ops[-1] if hist_ops else None, "exit_code": rc, "output_tail": out[-800:]})
                     continue
                 if harness:
